@@ -173,6 +173,10 @@ CATALOGUE = {
     "loop_bound_str": [("from", I(0), S("3"), False, None, "k", [("print", V("k"))])],
     "index_with_bool": [("assign", "xs", ("list", [V("in0"), I(2)]), "[int...]"), ("assign", "b", B("==", V("in0"), I(1))), ("print", ("index", V("xs"), "b"))],
     "index_into_int": [("assign", "n", V("in0")), ("print", ("index", V("n"), 0))],
+    # compound assignment: the variable keeps its declared kind, also when that is optional or an alias
+    "opassign_optional_target_bool": [("assign", "pend", V("in0"), "int?"), ("opassign", "pend", "+", ("bool", True))] + probe(V("pend")),
+    "opassign_optional_target_str": [("assign", "pend", V("in0"), "int?"), ("opassign", "pend", "-", S("x"))] + probe(V("pend")),
+    "opassign_bool_target": [("assign", "fl", B("==", V("in0"), I(1))), ("opassign", "fl", "+", I(1))] + probe(V("fl")),
     # classes
     "field_wrong_type": [("class", "K", [("n", "int")], [("a", "int")], [("setfield", V("self"), "n", V("a"))], [("bad", [], None, [("setfield", V("self"), "n", S("s"))]), ("get", [], "int", [("return", ("field", V("self"), "n"))])]),
                          ("assign", "o", ("call", "K", [V("in0")])), ("expr", ("mcall", V("o"), "bad", []))] + probe(("mcall", V("o"), "get", [])) + [("print", B("+", ("mcall", V("o"), "get", []), I(1)))],
